@@ -20,7 +20,7 @@ proven, typed or audited as an operating-system condition / a fact guaranteed by
 (3) Validation covers use: seed length, fault ratio and interface:port preconditions of Server::new are implied by is_valid_config, and workers are spawned only
 after it returned true.  (4) Worker provisioning: the spawn loop runs 0..num_workers, each iteration binds its own socket and names its thread.
 (5) Health check: the handler writes the constant documented response; the listener is registered only when a port is configured; registration is level-triggered or
-the handler accepts until WouldBlock.  (7) Started workers keep serving: the panic obligations of the serving path (C08) hold.  The receive loop of collect_requests runs at least once per event for every valid batch_size (its range is evaluated for 1, 2, 64).  (6) /repo/example.cfg (parsed as data): every key is a documented YAML key, every value is within the documented range.
+the handler accepts until WouldBlock.  (7) Started workers keep serving: the panic obligations of the serving path (C08) hold.  The receive loop of collect_requests runs at least once per event for every valid batch_size (its range is evaluated for 1, 2, 64).  (8) Both loaders take every documented setting as written: C16's key-name and wiring rules.  (6) /repo/example.cfg (parsed as data): every key is a documented YAML key, every value is within the documented range.
 """
 ASSUMPTIONS = ["the release configuration is analysed (-C debug-assertions=off, overflow checks kept as obligations): debug_assert!() and cfg(debug_assertions) code is compiled out and not part of the decided behaviour"]
 NOT_DECIDED = "that workers stay alive and replies arrive (process liveness, thread timing)"
